@@ -797,8 +797,9 @@ func (r *Reader) Document() (*model.Document, error) {
 				continue
 			}
 
-			// Check if this is a list item
-			if para.IsListItem && para.NumID != "" && para.NumID != "0" {
+			// Check if this is a list item. A numbered heading (heading style
+			// plus numbering) is a heading, as in Markdown().
+			if para.IsListItem && !para.IsHeading && para.NumID != "" && para.NumID != "0" {
 				// Determine if we need to start a new list
 				if currentList == nil || para.NumID != currentListNumID {
 					// Finalize previous list if any
